@@ -347,6 +347,7 @@ const (
 	pollEvery  = 3 * time.Millisecond
 	stableFor  = 30 * time.Millisecond
 	quiesceMax = 2 * time.Second
+	lateBand   = 3 * time.Second // upper band of the expiry close (the task's 700 ms, widened for loaded boxes)
 )
 
 // quiesce polls until cond (the completion signal of the op, may be nil) holds and the
@@ -642,11 +643,15 @@ func (e *sessEngine) Step(ws []string, o *Out) string {
 		if !c.hasExp {
 			return "bad-op"
 		}
+		// with disable-disconnect-on-expiry: still open 700 ms after exp.  Otherwise the server
+		// closes at exp; the close is looked for until exp + lateBand (generous: on a loaded box
+		// the handler goroutine and the relay are scheduled late), never before exp - 100 ms
 		limit := c.exp.Add(700 * time.Millisecond)
 		var cond func() bool
 		willClose := !e.disable && c.alive
 		if willClose {
 			cond = e.endOf(c)
+			limit = c.exp.Add(lateBand)
 		}
 		for time.Now().Before(limit) {
 			if who, _ := c.pr.ended(); who != "" && willClose {
